@@ -16,7 +16,10 @@ for d in sorted(glob.glob(os.path.join(ROOT, "seeded", "C*-*m[0-9]"))):
     needs = (m.get("needs_to_manifest") or "").replace("|", "/").replace("\n", " ")
     if len(needs) > 220:
         needs = needs[:217] + "..."
-    rows.append("| %s | %s | %s | %s |" % (name, title, needs, "; ".join(caught) if caught else "**not caught**"))
+    verdict = "; ".join(caught) if caught else "**not caught**"
+    if m.get("superseded"):
+        verdict = "superseded: " + m["superseded"]
+    rows.append("| %s | %s | %s | %s |" % (name, title, needs, verdict))
 table = "| seed | change | needs to manifest | caught by (latest run) |\n|------|--------|-------------------|------------------------|\n" + "\n".join(rows) + "\n"
 p = os.path.join(ROOT, "DESIGN.md")
 s = open(p).read()
